@@ -990,15 +990,33 @@ dt_strpd_special(const char *str, dt_dtyp_t typ, char **ep)
 	switch (typ) {
 	default:
 		break;
-	case DT_UMMULQURA:
-		res.ummulqura.y = strtoi_lim(sp, &sp, UMMULQURA_MIN_YEAR, UMMULQURA_MAX_YEAR);
-		sp += *sp == '-';
-		res.ummulqura.m = strtoi_lim(sp, &sp, 1, HIJRI_MONTHS_P_YEAR);
-		sp += *sp == '-';
-		res.ummulqura.d = strtoi_lim(sp, &sp, 1, 31);
+	case DT_UMMULQURA: {
+		int32_t y, m, d;
 
+		/* all three of year, month and day must be there
+		 * and within the table */
+		if ((y = strtoi_lim(
+			     sp, &sp,
+			     UMMULQURA_MIN_YEAR, UMMULQURA_MAX_YEAR)) < 0) {
+			goto nope;
+		}
+		sp += *sp == '-';
+		if ((m = strtoi_lim(sp, &sp, 1, HIJRI_MONTHS_P_YEAR)) < 0) {
+			goto nope;
+		}
+		sp += *sp == '-';
+		if ((d = strtoi_lim(sp, &sp, 1, 31)) < 0) {
+			goto nope;
+		}
+		res.ummulqura.y = y;
+		res.ummulqura.m = m;
+		res.ummulqura.d = d;
 		res.typ = DT_UMMULQURA;
 		goto out;
+	nope:
+		sp = str;
+		goto out;
+	}
 	}
 out:
 	/* set the end pointer */
